@@ -205,6 +205,7 @@ func pathExec(s core.Spec) core.Exec {
 	auths := append([]string(nil), w.auths...)
 	socks := append([]string(nil), w.socksTgt...)
 	btls := append([]string(nil), w.backendTLS...)
+	afterRefusal := w.afterRefusal
 	w.mu.Unlock()
 	t.N(fn).Str(addr)
 	if firstTLS {
@@ -212,7 +213,7 @@ func pathExec(s core.Spec) core.Exec {
 	} else {
 		t.N(0)
 	}
-	t.StrList(connects).StrList(auths).StrList(socks).StrList(btls).Bool(ok)
+	t.StrList(connects).StrList(auths).StrList(socks).StrList(btls).N(afterRefusal).Bool(ok)
 	tags := []string{core.Tag("proxy:%s", sp.Proxy), core.Tag("wss:%v", sp.WSS), core.Tag("cert:%d", sp.Cert), core.Tag("ok:%v", ok), core.Tag("hops:%d", nhops)}
 	if hung {
 		tags = append(tags, "HUNG")
@@ -575,6 +576,7 @@ func init() {
 			163: "the TLS session that reached the backend through the proxy was not opened for the URL's host (or TLSClientConfig.ServerName)",
 			164: "a ws:// connection through a proxy was wrapped in TLS towards the backend",
 			165: "the first hop was not dialed with the dial function the Dialer configures for it",
+			166: "the client went on sending after the proxy had answered CONNECT with a status other than 200",
 		},
 	})
 	core.Register(&core.Prop{
